@@ -142,25 +142,60 @@ func makeChan(capacity int) *chanv {
 
 func (c *chanv) send(v value) {
 	if c == nil {
+		if sch != nil {
+			sch.block("send on nil channel", func() bool { return false })
+		}
 		panic(pathAbort{"send on nil channel blocks forever", false})
 	}
 	if c.closed {
 		panic(targetPanicStr("send on closed channel"))
 	}
-	old := c.buf
-	journalFn(func() { c.buf = old })
+	if sch != nil {
+		// thread mode: real blocking semantics
+		if c.cap > 0 {
+			sch.block("channel send", func() bool { return len(c.buf) < c.cap || c.closed })
+			if c.closed {
+				panic(targetPanicStr("send on closed channel"))
+			}
+		}
+		c.push(v)
+		if c.cap == 0 {
+			// rendezvous: the value is visible to receivers; the sender goes on once it is taken
+			seq := c.sendCount
+			sch.block("channel send", func() bool { return c.recvCount >= seq })
+		}
+		return
+	}
+	c.push(v)
+}
+
+func (c *chanv) push(v value) {
+	old, oldN := c.buf, c.sendCount
+	journalFn(func() { c.buf, c.sendCount = old, oldN })
 	c.buf = append(c.buf[:len(c.buf):len(c.buf)], v)
+	c.sendCount++
 }
 
 func (c *chanv) recv(elem types.Type) (value, bool) {
 	if c == nil {
+		if sch != nil {
+			sch.block("receive from nil channel", func() bool { return false })
+		}
 		panic(pathAbort{"receive from nil channel blocks forever", false})
 	}
+	if sch != nil && len(c.buf) == 0 && !c.closed {
+		c.recvWaiters++
+		func() {
+			defer func() { c.recvWaiters-- }()
+			sch.block("channel receive", func() bool { return len(c.buf) > 0 || c.closed })
+		}()
+	}
 	if len(c.buf) > 0 {
-		old := c.buf
-		journalFn(func() { c.buf = old })
+		old, oldN := c.buf, c.recvCount
+		journalFn(func() { c.buf, c.recvCount = old, oldN })
 		v := c.buf[0]
 		c.buf = c.buf[1:]
+		c.recvCount++
 		return v, true
 	}
 	if c.closed {
@@ -170,6 +205,20 @@ func (c *chanv) recv(elem types.Type) (value, bool) {
 		return c.recv(elem)
 	}
 	panic(pathAbort{"receive would block", false})
+}
+
+// sendReady: can a select's send case on c fire now (thread mode)?
+func (c *chanv) sendReady() bool {
+	if c == nil {
+		return false
+	}
+	if c.closed {
+		return true // fires and panics, as in Go
+	}
+	if c.cap > 0 {
+		return len(c.buf) < c.cap
+	}
+	return len(c.buf) == 0 && c.recvWaiters > 0
 }
 
 func (c *chanv) ready() bool { return c != nil && (len(c.buf) > 0 || c.closed) }
